@@ -1,6 +1,7 @@
 package variants
 
 import (
+	"reflect"
 	"time"
 
 	cconv "github.com/pip-services3-gox/pip-services3-commons-gox/convert"
@@ -457,6 +458,18 @@ func (c *Variant) Equals(obj *Variant) bool {
 		}
 		return true
 	}
+	return equalPayloads(value1, value2)
+}
+
+// equalPayloads compares two payloads with ==. Host objects may have a type Go cannot
+// compare that way (maps, slices, functions): those are compared with reflect.DeepEqual
+// instead of panicking.
+func equalPayloads(value1 any, value2 any) (result bool) {
+	defer func() {
+		if recover() != nil {
+			result = reflect.DeepEqual(value1, value2)
+		}
+	}()
 	return value1 == value2
 }
 
